@@ -1098,6 +1098,19 @@ def run_ecases(ctx, res, im, scratch):
                 res.count('ecase skipped: path would leave the scratch directory')
                 shutil.rmtree(root, ignore_errors=True)
                 continue
+        # a SOURCE is looked up by the operating system, which resolves ".." physically: "x/.." needs x to exist as a real
+        # directory, which the model's lexical normalisation does not know.  Sources whose resolved path (string symbols
+        # substituted by the real resolver; pathlib keeps "..") contains a ".." component are kept out of the judged set.
+        # Destinations are not concerned: file, dir and copy create the missing parents first (checked: a/../M, a/b/../../c/M).
+        rd = None
+        if ec['kind'] == 'read':
+            rd = pre
+        elif ec['kind'] == 'both':
+            _, rd = im.observe(ec['defs'], conf_by_label[ec['src_label']][2], ec['src'])
+        if rd is not None and rd[0] == 'AResolved' and '..' in rd[3].split('/'):
+            res.count('ecase skipped: source path with a ".." component (resolved physically by the OS)')
+            shutil.rmtree(root, ignore_errors=True)
+            continue
         with open(os.path.join(home, 'c.case'), 'w') as f:
             f.write(ec['text'])
         before = snapshot(home, acthome)
@@ -1278,6 +1291,11 @@ _CONCAT = lambda f: [('S1', 'string', ('soft', [])), ('P2', 'path', f),
 _SRC = lambda n: (('none',), ('plain', [('s', n), ('c', '/src.txt')]))
 _DST = lambda n: (('none',), ('plain', [('s', n), ('c', '/MARK')]))
 E_CORPUS = [
+    # regression of a corrected false alarm: the source tmp/sub/../src.txt ("." + "." through a string symbol) - tmp/sub does not
+    # exist, the OS says "File does not exist"; the case must be kept out of the judged set by the source guard
+    lambda root: _e('read', 'assert', True, [('S2', 'string', ('plain', [('c', '.')]))],
+                    (('opt', 'RTmp'), ('plain', [('c', 'sub/.'), ('s', 'S2'), ('c', '/src.txt')])), 'contents-of:source:after-act', False,
+                    'file -rel-act a/MARK = -contents-of %s')(root),
     # a forbidden path symbol second in a concatenating string symbol, the string used as path component of a destination
     lambda root: _e('create', 'setup', False, _CONCAT((('here',), ('plain', [('c', '.')]))),
                     (('opt', 'RAct'), ('plain', [('s', 'S3'), ('c', '/MARK')])), 'file:destination', False, "file %s = 'M'")(root),
